@@ -633,6 +633,14 @@ pub(crate) async fn fashare(
     // 3 b) Pi broadcasts decommitment for macs.
     let mut dm_k = broadcast(channel, i, n, "fashare ver", &dmvec).await?;
     dm_k[i] = dmvec;
+    // every decommitment consists of the check bit and one 16 byte MAC per other party
+    let dm_len = 1 + (n - 1) * 16;
+    if dm_k
+        .iter()
+        .any(|dmv| dmv.iter().any(|dm| dm.len() != dm_len))
+    {
+        return Err(Error::InvalidLength);
+    }
 
     // 3 c) Compute bi to determine di_bi and send to all parties.
     let mut bi = [false; RHO];
